@@ -22,23 +22,30 @@ CLAIM = dict(
          "(getKList_total); for every sequence of calls on one grid object the object is unchanged and each call returns "
          "getKList(group, div, use_symmetry) - a function of its own arguments only (getKList_call_history; the harness "
          "replays call histories with both orders of use_symmetry, refinement of the returned lists in between and run() "
-         "reusing the grid, on Grid and GridTetra); under the group hypotheses on the star map (reflexive/symmetric/transitive on the grid, no "
-         "repetitions - an executable test of which is run on the code's own point groups) each retained point carries "
-         "|orbit|/N and every grid point lies in the star of exactly one retained point (getKList_orbit_cover); for every "
+         "reusing the grid, on Grid and GridTetra); if the list of operations is a GROUP (contains identity, inverses and products as maps on reduced "
+         "vectors) and the grid passes the symmetric-grid test, each retained point carries |orbit|/N and every grid point "
+         "lies in the star of exactly one retained point (getKList_orbit_cover_of_group, via orbitHyp_of_groupHyp; the "
+         "executable forms groupCheck / orbitCheck are run on the code's own point groups); for every "
          "ndiv>0 the children of divide() tile the parent's half-open cell (existence and uniqueness) and carry the "
          "parent's weight, the parent keeps weight 0 (divide_tiles, divide_conserves, refineOne_conserves); "
          "exclude_equiv_points conserves the total weight for any equivalence test and any ordering/grouping of the "
-         "float pre-filter (excludeEquiv_conserves); by induction over arbitrary refinement histories the weights stay "
+         "float pre-filter (excludeEquiv_conserves), never deletes or moves an old point (excludeEquiv_keeps_old), and for "
+         "an equivalence relation returns exactly the first point of every class with the summed class weight "
+         "(excludeEquiv_spec); by induction over arbitrary refinement histories the weights stay "
          ">= 0 and sum to 1 (history_invariant).  Tetrahedra: the five default tetrahedra cover the cell, lie inside it, "
          "have disjoint interiors and volumes/weights 1/6,1/6,1/6,1/6,1/3 (five_tetra_*); default weights are "
          "volume/total (initTets_weights); every piece of an edge split (any edge, any ndiv>0) has 1/ndiv of the volume "
-         "and weight and keeps the absolute vertex positions (divideTet_volume, divideTet_vertices); the split loops "
+         "and weight and keeps the absolute vertex positions (divideTet_volume, divideTet_vertices), and the pieces tile the "
+         "parent: closed parent = union of closed pieces, interiors pairwise disjoint for a non-degenerate parent "
+         "(divideTet_tiles); the split loops "
          "conserve total weight and volume for any break test/selection/edge choice (splitLoop_conserves).",
     note="Trusted: Lean kernel + Mathlib; the harness.  The float pre-filter of exclude_equiv_points (distGamma walls) and "
          "SYMMETRY_PRECISION are modelled as exact tests; the longest-edge choice of KpointBZtetra is modelled with exact "
-         "squared lengths (ties exact).  Not proved: that the halves of a split tetrahedron tile the parent (only volume, "
-         "weight and vertex positions), and that the kept weight after merging is the sum of its class (checked by the "
-         "oracle on the real code).  run()'s own selection of points is exercised through real run() calls in the oracle.",
+         "squared lengths (ties exact).  Not proved: unconditional termination of split_tetra_size (split_tetra_volume terminates; for the size "
+         "loop only splitSize_terminates_of_contraction under a stated geometric contraction hypothesis, and "
+         "splitLoop_fuel_irrelevant: extra fuel never changes a finished result), and that "
+         "the float pre-filter of exclude_equiv_points puts equivalent points into one group (hypothesis hcov of "
+         "excludeEquiv_spec; exercised by the correspondence).  run()'s own selection of points is exercised through real run() calls in the oracle.",
 )
 TRUSTED = [
     "modelled: PointSymmetry.transform_reduced_vector, PointGroup.star, Grid.get_K_list, KpointBZparallel.absorb/equiv/"
@@ -385,6 +392,10 @@ def corr_hist(ctx, B):
             for div in ([2, 2, 2], [4, 4, 2], [3, 3, 2], [4, 4, 4], [3, 3, 3], [2, 3, 4], [6, 6, 2]):
                 if pg.symmetric_grid(div) and np.prod(div) * pg.size <= ctx.n(400, 1600):
                     ctx.count("corr.orbit-hypotheses-checked")
+                    B.add(f"grouphyp {sym_tok(pg)} {ints(div)}",
+                          (lambda o: None if o == "1" else "the GROUP hypotheses of getKList_orbit_cover_of_group (identity, "
+                           "inverses, products, symmetric grid) FAIL"),
+                          dict(group=name, kind=kind, div=div), "group hypotheses on the code's own point group")
                     B.add(f"orbithyp {sym_tok(pg)} {ints(div)}",
                           (lambda o: None if o == "1" else "the group hypotheses of getKList_orbit_cover FAIL"),
                           dict(group=name, kind=kind, div=div), "orbit hypotheses on the code's own point group")
